@@ -96,7 +96,14 @@ def s_string_replace(eng, fr, ins, st, name, argv):
     return this
 
 
+def s_string_fill_len(eng, fr, ins, st, name, argv):
+    """std::string::_M_construct(n, c) - what the inlined std::to_string starts from: a string of n characters (length only)"""
+    _set_string(eng, st, argv[0], argv[1])
+    return None
+
+
 STRING_LENGTH_STUBS = {
+    '_ZNSt7__cxx1112basic_stringIcSt11char_traitsIcESaIcEE12_M_constructEmc': s_string_fill_len,
     '_ZNSt7__cxx1112basic_stringIcSt11char_traitsIcESaIcEE9_M_appendEPKcm': s_string_append,
     '_ZNSt7__cxx1112basic_stringIcSt11char_traitsIcESaIcEE10_M_replaceEmmPKcm': s_string_replace,
     '_ZNSt7__cxx1112basic_stringIcSt11char_traitsIcESaIcEEC1EPKcRKS3_': s_lit_string, '_ZNSt7__cxx1112basic_stringIcSt11char_traitsIcESaIcEEC2EPKcRKS3_': s_lit_string,
